@@ -792,6 +792,10 @@ def c17(run):
                 run.violation({"kind": "changed", "method": meth, "class": gi},
                               "%s(%s) -> %s changed the store: %s" % (meth, ", ".join(repr(a)[:30] for a in args), gi, diff[:4]),
                               {"method": meth, "args": v, "outcome": gi, "changed": diff[:10]})
+            # fixture hygiene (outside the API): the fresh content must stay "not yet stored" for the next case
+            ncid = hashlib.sha256(open(newsrc, "rb").read()).hexdigest()
+            nobj = os.path.join(root, "objects", ncid[:2], ncid[2:4], ncid[4:6], ncid[6:])
+            nref = os.path.join(root, "refs", "cids", ncid[:2], ncid[2:4], ncid[4:6], ncid[6:])
             if not rejected and not readonly and gi == "ok":
                 # restore the fixture state for the next case (a valid call did its work)
                 for undo in (lambda: hs.delete_object("new-pid"), lambda: hs.delete_metadata("new-pid"), lambda: hs.delete_object("pid-m")):
@@ -801,6 +805,8 @@ def c17(run):
                         pass
                 if meth == "delete_if_invalid_object":
                     pass
+            if os.path.isfile(nobj) and not os.path.isfile(nref):
+                os.remove(nobj)
             # documented classes for the documented conditions
             want = None
             if meth in ("retrieve_object", "delete_object", "get_hex_digest") and v[0] in (S("unknown-pid"), S("meta-only-pid")):
@@ -1232,6 +1238,9 @@ def c01(run):
                     stream.close()
             if os.path.exists(src):
                 os.remove(src)
+        # ---- "together with the true byte size": expected sizes on and around multiples of the read buffer (shared with C06)
+        import checks as _checks
+        _checks.c06_sizes(run)
         # ---- histories of other calls between the store and the retrieve
         n_hist = 12 if quick else 150
         for hno in range(n_hist):
